@@ -2709,10 +2709,10 @@ class Interp:
         for op, rn in zip(n.ops, n.comparators):
             r = self.eval(rn, fr)
             v = self.compare(op, l, r, n)
-            if isinstance(v, (AArr, SymScalar, NP.IdxArr)):
+            if isinstance(v, (AArr, SymScalar, NP.IdxArr, PyModel)):
                 if len(n.ops) > 1:
                     raise AnalysisAbort("chained comparison on array data")
-                return v
+                return v        # an elementwise result, not a truth value
             if not v:
                 return False
             l = r
